@@ -1,0 +1,30 @@
+//go:build verif
+
+package config
+
+// CleanTraceVerif exposes cleanTrace for the verification harness (build tag verif only).
+func CleanTraceVerif(allow, trace []string) ([]string, []string) { return cleanTrace(allow, trace) }
+
+// RawSyscallListsVerif returns the allow and trace lists GetConf assembles
+// for a program type before cleanTrace is applied.
+func RawSyscallListsVerif(pType string, allowProc bool) (allow, trace []string) {
+	allow = append(append([]string{}, defaultSyscallAllows...), archSyscallAllows...)
+	trace = append(append([]string{}, defaultSyscallTraces...), archSyscallTraces...)
+	if c, o := runptraceConfig[pType]; o {
+		allow = append(allow, c.Syscall.ExtraAllow...)
+		trace = append(trace, c.Syscall.ExtraBan...)
+	}
+	if allowProc {
+		allow = append(allow, defaultProcSyscalls...)
+	}
+	return allow, trace
+}
+
+// ProgramTypesVerif lists the configured program types.
+func ProgramTypesVerif() []string {
+	r := []string{""}
+	for k := range runptraceConfig {
+		r = append(r, k)
+	}
+	return r
+}
